@@ -542,6 +542,17 @@ def extra(uni, tier, seed):
                                  replay={"confirmed": True,
                                          "obligation": oname,
                                          "detail": detail}))
+    for oname, ok, detail in check_openmp(docs):
+        if ok is True:
+            n_ok += 1
+        elif ok is None:
+            unspecified.append(f"{oname}: {detail}"[:160])
+        else:
+            out.append(Extra(oname, False, detail[:400],
+                             kind="structural obligation on the generated "
+                                  "OpenMP code of a reduction built-in",
+                             replay={"confirmed": True, "obligation": oname,
+                                     "detail": detail}))
     for cname in uni.repo.subclasses("LFRicBuiltIn"):
         info = uni.repo.cls(cname)
         if info and "lower_to_language_level" in info.methods:
@@ -554,4 +565,84 @@ def extra(uni, tier, seed):
                      kind="z3 obligations on executed lowerings vs the user "
                           "guide", count=n_ok,
                      samples=sorted(docs)[:5], undecided=n_ok <= 100))
+    return out
+
+
+# ---------------------------------------------------------------------------
+# reductions after OpenMP parallelisation
+# ---------------------------------------------------------------------------
+def check_openmp(docs):
+    """For every documented built-in that is a reduction: one invoke holding
+    just that built-in is parallelised in three ways (parallel do; orphaned
+    do inside a parallel region with the default schedule; the same with
+    omp_schedule='none'), code is generated by the real PSy layer, and the
+    work-sharing directive must carry reduction(+:<variable>) while the
+    variable is zeroed before the parallel region.  [(name, ok, detail)]"""
+    import re
+    import tempfile
+    from psyclone.configuration import Config
+    from psyclone.parse.algorithm import parse
+    from psyclone.psyGen import PSyFactory
+    from psyclone.psyir.nodes import Loop
+    from psyclone.transformations import (Dynamo0p3OMPLoopTrans,
+                                          DynamoOMPParallelLoopTrans,
+                                          OMPParallelTrans)
+    out = []
+    for name, spec in sorted(docs.items()):
+        if spec["formula"] is None:
+            continue
+        decls = [arg_decl(a, name)[0] for a in dict.fromkeys(spec["args"])]
+        source = ("program demo_alg\n"
+                  "  use constants_mod, only: r_def, i_def\n"
+                  "  use field_mod, only: field_type\n"
+                  "  use integer_field_mod, only: integer_field_type\n"
+                  "  implicit none\n" + "".join(f"  {d}\n" for d in decls) +
+                  f"  call invoke( {name}({', '.join(spec['args'])}) )\n"
+                  "end program demo_alg\n")
+        for variant in ("parallel-do", "orphan-do", "orphan-do-none"):
+            Config._instance = None
+            Config.get().api = "lfric"
+            with tempfile.TemporaryDirectory() as tmp:
+                path = os.path.join(tmp, "demo_alg.f90")
+                with open(path, "w", encoding="utf-8") as fout:
+                    fout.write(source)
+                _, info = parse(path, api="lfric")
+            psy = PSyFactory("lfric", distributed_memory=False).create(info)
+            sched = psy.invokes.invoke_list[0].schedule
+            kern = sched.coded_kernels()[0] if sched.coded_kernels() else \
+                sched.kernels()[0]
+            if not getattr(kern, "is_reduction", False):
+                break
+            var = kern.reduction_arg.name
+            loop = sched.walk(Loop)[0]
+            oname = f"builtin[{name}]#openmp-reduction[{variant}]"
+            try:
+                if variant == "parallel-do":
+                    DynamoOMPParallelLoopTrans().apply(loop)
+                else:
+                    sch = "none" if variant.endswith("none") else "static"
+                    Dynamo0p3OMPLoopTrans(omp_schedule=sch).apply(
+                        loop, {"reprod": False})
+                    OMPParallelTrans().apply(sched.children[0])
+                code = str(psy.gen).lower()
+            except Exception as err:       # noqa
+                out.append((oname, None, f"not generated: {err!r}"[:200]))
+                continue
+            lines = code.splitlines()
+            dirs = [k for k, ln in enumerate(lines) if re.match(
+                r"\s*!\$omp (parallel )?do\b", ln)]
+            ok = bool(dirs) and all(
+                f"reduction(+:{var.lower()})" in lines[k].replace(" ", "")
+                or f"reduction(+: {var.lower()})" in lines[k]
+                for k in dirs)
+            zero = [k for k, ln in enumerate(lines) if re.match(
+                rf"\s*{re.escape(var.lower())}\s*=\s*0", ln)]
+            first_par = min([k for k, ln in enumerate(lines)
+                             if "!$omp parallel" in ln] or [0])
+            ok = ok and bool(zero) and zero[0] < first_par
+            out.append((oname, ok, "" if ok else
+                        f"the work-sharing directive of the reduction loop "
+                        f"has no reduction(+:{var}) clause or {var} is not "
+                        f"zeroed before the region:\n" + "\n".join(
+                            lines[max(0, first_par - 3):first_par + 8])))
     return out
